@@ -263,9 +263,11 @@ build() {
        ++ci) {
     CPPType *type = parser.parse_type(*ci);
     if (type == nullptr) {
+      // This happens for a type that has no name to find it again by, such
+      // as decltype() of a variable of anonymous struct type.
       cerr << "Failure to parse forcetype " << *ci << "\n";
+      continue;
     }
-    assert(type != nullptr);
     get_type(type, true);
   }
 
